@@ -17,8 +17,10 @@ Obs == ndJsonDeserialize(ObsFile)
 NObs == Len(Obs)
 W == 16
 
-Flags == <<"res_bytes", "res_equal", "res_presence", "env_header", "env_cells", "env_spare", "env_content", "reeval_differs">>
-Changed(m) == SelectSeq(Flags, LAMBDA f : m[f])
+Flags == <<"res_bytes", "res_equal", "res_presence", "env_header", "env_cells", "env_spare", "env_content", "reeval_differs", "crosseval_differs">>
+(* crosseval_differs (machine programs only): the compiled expression, reused on OTHER resources and OTHER variable   *)
+(* values, disagrees with a freshly compiled one - it kept something of its first evaluation                          *)
+Changed(m) == SelectSeq(Flags, LAMBDA f : Has(m, f) /\ m[f])
 InputsFrozen(m) == Len(Changed(m)) = 0
 
 NodesAreInputNodes(out) ==
